@@ -2,3 +2,4 @@
 pub mod rng;
 pub mod out;
 pub mod enc;
+pub mod sys;
